@@ -13,7 +13,7 @@ RULE = ("BFS over histories on 2-3 files of mutators (incl. clear/reset as FIRST
         "bytes of the files in the buffer (serialized) / number of buffered files a mutator touched (shared-memory); size == "
         "recomputation from the entry table when introspectable; capacity == the model's (restored at exits); reads and "
         "final files equal the reference (a forced flush loses nothing); non-trivial = distinct reached states")
-BOUNDS = {"quick": "2 files, depth 5, Buffered/MemoryBuffered dict; depth 4 lists",
+BOUNDS = {"quick": "2 files; depth 5 MemoryBufferedJSONDict, depth 4 BufferedJSONDict and MemoryBufferedJSONList, depth 3 BufferedJSONList",
           "thorough": "2 files depth 6 all 8 classes; 3 files depth 5"}
 ASSUMPTIONS = ["the exact-recomputation oracle reads Class._buffer if it exists (skipped with a note if the layout changes)"]
 
@@ -175,7 +175,7 @@ def make_hooks(name, task):
 def plan(tier, seed):
     tasks = []
     if tier == "quick":
-        combos = [("BufferedJSONDict", 2, 5), ("MemoryBufferedJSONDict", 2, 5), ("BufferedJSONList", 2, 4), ("MemoryBufferedJSONList", 2, 4)]
+        combos = [("BufferedJSONDict", 2, 4), ("MemoryBufferedJSONDict", 2, 5), ("BufferedJSONList", 2, 3), ("MemoryBufferedJSONList", 2, 4)]
     else:
         combos = [(c, 2, 6) for fam in env.BUFFERED_FAMILIES for c in env.JSON_FAMILIES[fam]] + \
                  [("BufferedJSONDict", 3, 5), ("MemoryBufferedJSONDict", 3, 5)]
